@@ -469,12 +469,38 @@ func childEDF() {
 			debug.SetMaxStack(cs.MaxStackMB << 20)
 		}
 		bombs := 0
-		expensive := 0
+		var expensiveIdx []int
 		if ci == spec.ResumeCase {
-			expensive = spec.ResumeExpensive
+			expensiveIdx = spec.ResumeExpensiveIdx
+		}
+		enum := enumClasses[cs.Class]
+		vlen := 0
+		if enum {
+			vlen = len(corpora[cs.Opt][cs.Item].enc)
+		}
+		// an input is skipped when the case has used up its budget of expensive violations, or (enumerative
+		// classes) when it modifies bytes that an expensive input of this case modified
+		skip := func(idx int) bool {
+			if cs.Only >= 0 {
+				return false
+			}
+			if !enum {
+				return len(expensiveIdx) >= expensiveBudget
+			}
+			if len(expensiveIdx) >= expensiveBudgetEnum {
+				return true
+			}
+			o, w := enumWindow(cs.Class, vlen, idx)
+			for _, e := range expensiveIdx {
+				eo, ew := enumWindow(cs.Class, vlen, e)
+				if o < eo+ew && eo < o+w {
+					return true
+				}
+			}
+			return false
 		}
 		q, r := 1, 0
-		if enumClasses[cs.Class] && cs.Only < 0 {
+		if enum && cs.Only < 0 {
 			q, r = enumStride(cs)
 		}
 		for idx := 0; idx < n; idx++ {
@@ -497,13 +523,11 @@ func childEDF() {
 			if idx < from {
 				continue
 			}
-			if expensive >= expensiveBudget && cs.Only < 0 {
+			if skip(idx) {
 				a.extra["not_executed_after_expensive_budget"]++
 				continue
 			}
-			before := a.extra["expensive"]
 			checkDecode(ci, cs, idx, in, o, a)
-			expensive += int(a.extra["expensive"] - before)
 		}
 		writeRec(a.rec(cs.ID))
 	}
